@@ -5,6 +5,7 @@ import (
 	"strings"
 
 	"covr/internal/e1"
+	"covr/internal/render"
 )
 
 // by builds a bystander program: plain declarations co-located with a tiny
@@ -24,7 +25,50 @@ var _ = §tiny
 
 // Opt returns the optimiser / bystander directed cases (C07, C13, C11).
 func Opt() []*e1.Program {
+	// the file imports the seq runtime itself (plain dot import of the API, seq under its default name)
+	withSeq := func(p *e1.Program) *e1.Program {
+		p.Imports = append(p.Imports, "github.com/goghcrow/go-co/seq")
+		p.Style = render.Dot
+		return p
+	}
 	return []*e1.Program{
+		withSeq(by("by-user-seq-code-delay-with-effectful-arguments", `
+func §mk(tag int) seq.Seq[int] {
+	tr.E(tag)
+	return seq.Bind(tag, seq.Normal[int])
+}
+func §cond(n *int) func() bool {
+	tr.E(50)
+	return func() bool { *n++; return *n < 3 }
+}
+func §raw() seq.Iterator[int] {
+	return seq.Start(seq.Delay(func() seq.Seq[int] {
+		return seq.Combine(§mk(1), §mk(2))
+	}))
+}
+func §E() {
+	it := §raw()
+	tr.E(100)
+	for it.MoveNext() {
+		tr.V(3, it.Current())
+	}
+	n := 0
+	jt := seq.Start(seq.Delay(func() seq.Seq[int] {
+		return seq.While(§cond(&n), seq.Delay(func() seq.Seq[int] { return §mk(10 + n) }))
+	}))
+	tr.E(101)
+	for jt.MoveNext() {
+		tr.V(4, jt.Current())
+	}
+	lazy := seq.Delay(func() seq.Seq[int] {
+		return seq.Delay(func() seq.Seq[int] { return §mk(20) })
+	})
+	tr.E(102)
+	kt := seq.Start(seq.Combine(lazy, lazy))
+	for kt.MoveNext() {
+		tr.V(5, kt.Current())
+	}
+}`, "user-seq-code")),
 		by("by-eta-funcvar-reassigned", `
 func §E() {
 	f := func(x int) int { tr.E(1); return x + 1 }
